@@ -8,13 +8,17 @@
    also says they never panic; for shape helpers under the validator's precondition; for element generators: one
    call of the closure moves the multi-index state exactly like the model's odometer ([incr], [incr_skip], [bstep]),
    and the statements outside the integer fragment are pinned as text in source order ([itemShape]).
-   An edit of one of these Go functions changes GoFns.v and breaks the theorem unless it computes the same thing.
+   The DATA layer (functions over `any`: float64 leaves and []any rows, recursive closures with pointer
+   parameters) is translated into DataIR programs (Model/DataIR.v, Model/GoData.v, regenerated every run); the
+   [data_*] / [drun_*] theorems say that running them returns exactly the model's nested data (Model/Data.v,
+   Model/Fill.v) and panics exactly where the model says None.
+   An edit of one of these Go functions changes GoFns.v / GoData.v and breaks the theorem unless it computes the same thing.
    Closed under the global context. *)
 From Coq Require Import String List ZArith Bool Arith.
-From Qeep Require Import Model.Nd Model.Fill Model.Valid Model.GoIR.
-From Qeep Require Model.Data Model.GoFns.
+From Qeep Require Import Model.Scalar Model.Nd Model.Fill Model.Valid Model.GoIR Model.DataIR.
+From Qeep Require Model.Data Model.Api Model.GoFns Model.GoData.
 From Qeep Require Import Proofs.GoIRP.
-From Qeep Require Proofs.GoValidAtP Proofs.GoValidP1 Proofs.GoValidP2 Proofs.GoValidP3 Proofs.GoDimsP1 Proofs.GoDimsP2 Proofs.GoGenP1 Proofs.GoGenP2 Proofs.GoGenP3.
+From Qeep Require Proofs.GoValidAtP Proofs.GoValidP1 Proofs.GoValidP2 Proofs.GoValidP3 Proofs.GoDimsP1 Proofs.GoDimsP2 Proofs.GoGenP1 Proofs.GoGenP2 Proofs.GoGenP3 Proofs.GoMatMulShapeP Proofs.DataAtP Proofs.DataSliceP Proofs.DataPatchP Proofs.DataApplyP Proofs.DataReduceP Proofs.DataFillP Proofs.DataLinalgP Proofs.DataConcatP.
 Import ListNotations.
 Local Open Scope string_scope.
 
@@ -120,3 +124,68 @@ Theorem broadcastElemGenerator_step_is_bstep :
     GoGenP3.bRep src shape (bstep ps) e' /\ GoGenP3.bwf src shape (bstep ps) /\ GoGenP3.bframe e e'.
 Proof. exact @GoGenP3.go_broadcastElemGenerator_step. Qed.
 Print Assumptions broadcastElemGenerator_step_is_bstep.
+
+Theorem applyUnary_program_is_apply1 :
+  forall (A : Type) (SA : Scalar A) (fapp : string -> list A -> option A) (St : Type)
+    (ext : string -> list dval -> St -> option (list dval * St)) (f : A -> A),
+  (forall a : A, fapp "suf" [a] = Some (f a)) ->
+  forall (fuel depth : nat) (t : tensor A) (s : St),
+  Datatypes.length (dims t) < depth ->
+  match Data.apply1 f t with
+  | Some t' =>
+      exists g l : denv,
+        drun fapp St ext GoData.d_applyUnary fuel depth [dnats (dims t); emb (data t)] s =
+        DRet St [dnats (dims t'); emb (data t')] s g l
+  | None => drun fapp St ext GoData.d_applyUnary fuel depth [dnats (dims t); emb (data t)] s = DPanic St
+  end.
+Proof. exact @DataApplyP.data_apply1. Qed.
+Print Assumptions applyUnary_program_is_apply1.
+
+Theorem applyBinary_program_is_apply2 :
+  forall (A : Type) (SA : Scalar A) (fapp : string -> list A -> option A) (St : Type)
+    (ext : string -> list dval -> St -> option (list dval * St)) (f : A -> A -> A),
+  (forall a b : A, fapp "sbf" [a; b] = Some (f a b)) ->
+  forall (fuel depth : nat) (t1 t2 : tensor A) (s : St),
+  Datatypes.length (dims t1) < depth ->
+  match Data.apply2 f t1 t2 with
+  | Some t' =>
+      exists g l : denv,
+        drun fapp St ext GoData.d_applyBinary fuel depth
+          [dnats (dims t1); emb (data t1); dnats (dims t2); emb (data t2)] s =
+        DRet St [dnats (dims t'); emb (data t')] s g l
+  | None =>
+      drun fapp St ext GoData.d_applyBinary fuel depth
+        [dnats (dims t1); emb (data t1); dnats (dims t2); emb (data t2)] s = 
+      DPanic St
+  end.
+Proof. exact @DataApplyP.data_apply2. Qed.
+Print Assumptions applyBinary_program_is_apply2.
+
+Theorem calcData_unary_closure :
+  forall (A : Type) (SA : Scalar A) (fapp : string -> list A -> option A) (St : Type)
+    (ext : string -> list dval -> St -> option (list dval * St)) (f : A -> A),
+  (forall a : A, fapp "suf" [a] = Some (f a)) ->
+  forall (ds : list nat) (d fuel : nat) (a : nd A) (r0 : dval) (s : St) (g : denv),
+  Datatypes.length ds <= d ->
+  callLD fapp St ext (plocals GoData.d_applyUnary) fuel (S d) "calcData" [dnats ds; emb a; r0] s g =
+  match Data.calc1 f ds a with
+  | Some r => CRet St [emb a; emb r] s g
+  | None => CPanic St
+  end.
+Proof. exact @DataApplyP.calcData1. Qed.
+Print Assumptions calcData_unary_closure.
+
+Theorem calcData_binary_closure :
+  forall (A : Type) (SA : Scalar A) (fapp : string -> list A -> option A) (St : Type)
+    (ext : string -> list dval -> St -> option (list dval * St)) (f : A -> A -> A),
+  (forall a b : A, fapp "sbf" [a; b] = Some (f a b)) ->
+  forall (ds : list nat) (d fuel : nat) (a b : nd A) (r0 : dval) (s : St) (g : denv),
+  Datatypes.length ds <= d ->
+  callLD fapp St ext (plocals GoData.d_applyBinary) fuel (S d) "calcData" [dnats ds; emb a; emb b; r0] s
+    g =
+  match Data.calc2 f ds a b with
+  | Some r => CRet St [emb a; emb b; emb r] s g
+  | None => CPanic St
+  end.
+Proof. exact @DataApplyP.calcData2. Qed.
+Print Assumptions calcData_binary_closure.
